@@ -163,6 +163,21 @@ def canonical_instance(text):
     return doc
 
 
+def canonical(fn, text, w=None):
+    """conf/manifest.yaml of an INSTANCE says which top-level folders the instance has.  Entries with a nested
+    target (`shared/extra: <source>:link`) only record how the package populated a sub-folder; a reload that
+    re-stores the manifest lists the top-level folders of the directory and drops them (counted, informational):
+    compared are the plain entries and the set of top-level folders that all keys name."""
+    doc = canonical_instance(text)
+    if fn != "manifest.yaml" or not isinstance(doc, dict):
+        return doc
+    nested = sorted(k for k in doc if "/" in k)
+    if nested and w is not None:
+        w.count("info_manifest_with_nested_targets_compared")
+    return {"entries": {k: v for k, v in doc.items() if "/" not in k},
+            "top_level_folders": sorted({k.split("/", 1)[0] for k in doc})}
+
+
 def read_files(inst):
     out = {}
     for fn in ("flowir_instance.yaml", "manifest.yaml"):
@@ -312,6 +327,18 @@ def emptied_pairs(case, snap):
     return out
 
 
+def direct_refs_into(snap, folders):
+    """Number of (node, reference) pairs of the experiment that wrote the files whose reference is a DIRECT
+    reference into one of `folders` (first path segment, no stage/component in front)."""
+    n = 0
+    for node in snap["nodes"]:
+        refs = snap["per_node"][node]["references"]
+        for ref in refs if isinstance(refs, list) else []:
+            if str(ref).rsplit(":", 1)[0].split("/", 1)[0] in folders:
+                n += 1
+    return n
+
+
 # ----------------------------------------------------------------------------- one case
 
 case_stage = ["create"]
@@ -331,16 +358,49 @@ def run_case(case, w, only_clause=None):
 
     root = vlib.mkscratch("c07")
     case_stage[1:] = [root]
+    fo = case.get("folders")
+    file_form = bool(fo) and fo["form"] == "file"
     pkg = os.path.join(root, "c%d.package" % case["idx"])
-    os.makedirs(os.path.join(pkg, "conf"))
-    with open(os.path.join(pkg, "conf", "flowir_package.yaml"), "w") as f:
-        yaml.safe_dump(case["flowir"], f, sort_keys=False)
+    conf_dir = os.path.join(pkg, "conf") if not file_form else os.path.join(root, "confsrc")
+    os.makedirs(conf_dir)
+    documents = dict(case.get("docs") or {})
     if case["dowhile"] is not None:
-        with open(os.path.join(pkg, "conf", "dowhile.yaml"), "w") as f:
-            yaml.safe_dump(case["dowhile"], f, sort_keys=False)
-    for fn, d in (case.get("docs") or {}).items():
-        with open(os.path.join(pkg, "conf", fn), "w") as f:
+        documents["dowhile.yaml"] = case["dowhile"]
+    manifest = None
+    if file_form:
+        # standalone FlowIR file + manifest; $imported documents sit next to the file (package load) and travel
+        # into the instance through the manifest entry `conf`
+        pkg = os.path.join(root, "c%d.yaml" % case["idx"])
+        with open(pkg, "w") as f:
+            yaml.safe_dump(case["flowir"], f, sort_keys=False)
+        for fn, d in documents.items():
+            with open(os.path.join(root, fn), "w") as f:
+                yaml.safe_dump(d, f, sort_keys=False)
+        manifest = {}
+        if documents:
+            manifest["conf"] = conf_dir + ":copy"
+    else:
+        with open(os.path.join(conf_dir, "flowir_package.yaml"), "w") as f:
+            yaml.safe_dump(case["flowir"], f, sort_keys=False)
+    for fn, d in documents.items():
+        with open(os.path.join(conf_dir, fn), "w") as f:
             yaml.safe_dump(d, f, sort_keys=False)
+    for i, fd in enumerate((fo or {}).get("folders", [])):
+        srcs = [os.path.join(root, "source%d" % i)] + ([os.path.join(root, "source%d-extra" % i)] if fd["nested"] else [])
+        for src in srcs:
+            for rel in G.FOLDER_FILES:
+                os.makedirs(os.path.dirname(os.path.join(src, rel)), exist_ok=True)
+                with open(os.path.join(src, rel), "w") as f:
+                    f.write("%s of %s\n" % (rel, os.path.basename(src)))
+        if file_form:
+            manifest[fd["name"]] = "%s:%s" % (srcs[0], fd["method"])
+            if fd["nested"]:
+                manifest["%s/%s" % (fd["name"], fd["nested"]["name"])] = "%s:%s" % (srcs[1], fd["nested"]["method"])
+        elif fd["method"] == "link":
+            os.symlink(srcs[0], os.path.join(pkg, fd["name"]))        # absolute target: survives the copy to the instance
+        else:
+            import shutil
+            shutil.copytree(srcs[0], os.path.join(pkg, fd["name"]))
     vfiles = []
     for i, uv in enumerate(case["uservars"]):
         p = os.path.join(root, "uservars%d.yaml" % i)
@@ -350,7 +410,7 @@ def run_case(case, w, only_clause=None):
     os.chdir(root)
     case_stage[0] = "create"
     platform = case["platform"]
-    package = experiment.model.storage.ExperimentPackage.packageFromLocation(pkg, platform=platform)
+    package = experiment.model.storage.ExperimentPackage.packageFromLocation(pkg, platform=platform, manifest=manifest)
     exp = experiment.model.data.Experiment.experimentFromPackage(
         package, location=root, platform=platform, variable_files=vfiles or None)
     inst = exp.instanceDirectory.location
@@ -367,6 +427,16 @@ def run_case(case, w, only_clause=None):
     iterate(exp, case["k0"])
     prev = exp
     prev_snap = snapshot(prev)
+    linked, copied = set(), set()
+    if fo:
+        for fd in fo["folders"]:
+            (linked if os.path.islink(os.path.join(inst, fd["name"])) else copied).add(fd["name"])
+        w.count("packages_with_toplevel_folders")
+        w.count("packages_with_toplevel_folders_%s_form" % fo["form"])
+        if linked:
+            w.count("packages_with_linked_toplevel_folders")
+        if any(fd["nested"] for fd in fo["folders"]):
+            w.count("packages_with_nested_manifest_targets")
     n_loop_nodes = sum(1 for n in prev_snap["nodes"] if "#" in n)
     if case.get("emptied"):
         # how much of the generator's plan is real in the experiment that wrote the files (informational)
@@ -384,7 +454,13 @@ def run_case(case, w, only_clause=None):
                 inst, platform=platform, updateInstanceConfiguration=cyc["update"])
         except Exception as e:
             key = classify_reload_exception(case, str(e))
-            viol("reload_exception", "instance cannot be reloaded (cycle %d): %s" % (ci, str(e)[-300:].replace("\n", " ")),
+            note = ""
+            hit = sorted(f for f in linked | copied if "stage" in str(e) and (".%s'" % f) in str(e) and "Unknown reference" in str(e))
+            if hit:
+                w.count("viol_toplevel_folder_not_recognised")
+                note = " [top-level folder(s) %s (%s into the instance by the package) are read as component names by " \
+                       "the reloaded experiment]" % (", ".join(hit), "/".join(sorted({"linked" if f in linked else "copied" for f in hit})))
+            viol("reload_exception", "instance cannot be reloaded (cycle %d)%s: %s" % (ci, note, str(e)[-300:].replace("\n", " ")),
                  {"cycle": ci, "error": str(e)[-1500:]}, key)
             return False
         new_snap = snapshot(new)
@@ -396,6 +472,12 @@ def run_case(case, w, only_clause=None):
             w.count("clause_reload_nondefault_platform")
         if case["uservars"]:
             w.count("clause_reload_with_user_variables")
+        if fo:
+            n_l, n_c = direct_refs_into(prev_snap, linked), direct_refs_into(prev_snap, copied)
+            w.count("clause_reload_direct_refs_into_linked_folders", n_l)
+            w.count("clause_reload_direct_refs_into_copied_folders", n_c)
+            if n_l:
+                w.count("clause_reload_with_direct_refs_into_linked_folders")
         emptied = emptied_pairs(case, prev_snap)
         if emptied:
             w.count("clause_reload_with_emptied_options")
@@ -458,8 +540,8 @@ def run_case(case, w, only_clause=None):
                 if x != y:
                     w.count("info_load_untouched_bytes_differ")
                     for fn in x:
-                        cx = canonical_instance(x[fn]) if x[fn] is not None else None
-                        cy = canonical_instance(y[fn]) if y[fn] is not None else None
+                        cx = canonical(fn, x[fn], w) if x[fn] is not None else None
+                        cy = canonical(fn, y[fn]) if y[fn] is not None else None
                         if cx != cy:
                             ok = False
                             viol("load_untouched", "reload with updateInstanceConfiguration=False changed %s: %s" % (
@@ -471,8 +553,8 @@ def run_case(case, w, only_clause=None):
                     w.count("info_%s_byte_identical" % clause)
                     continue
                 w.count("info_%s_bytes_differ" % clause)
-                cx = canonical_instance(x[fn]) if x[fn] is not None else None
-                cy = canonical_instance(y[fn]) if y[fn] is not None else None
+                cx = canonical(fn, x[fn], w) if x[fn] is not None else None
+                cy = canonical(fn, y[fn]) if y[fn] is not None else None
                 if cx != cy:
                     ok = False
                     d = diff(cx, cy)
@@ -525,7 +607,7 @@ def default_platform_reload_slice(case, w, viol, inst, platform, prev_snap):
     after = read_files(inst)
     dropped = False
     for fn in before:
-        cx, cy = canonical_instance(before[fn]), canonical_instance(after[fn])
+        cx, cy = canonical(fn, before[fn], w), canonical(fn, after[fn])
         if cx == cy:
             continue
         ok = False
@@ -618,7 +700,7 @@ def run_job(job, w):
         if case.get("emptied"):
             w.count("cases_with_explicit_empties")
         w.sample({"idx": case["idx"], "class": G.class_key(case), "platform": case["platform"], "k0": case["k0"],
-                  "emptied": case.get("emptied"),
+                  "emptied": case.get("emptied"), "folders": case.get("folders"),
                   "cycles": case["cycles"], "uservars": case["uservars"], "flowir": case["flowir"],
                   "dowhile": case["dowhile"]})
 
@@ -646,6 +728,10 @@ def main():
                        "synchronisation edges <old condition instance> -> <reader of a placeholder> that only exist in an "
                        "incrementally unrolled graph are not dataflow and are tolerated (counted)",
                        "options patched with setOptionForNode are transient by documentation and not part of the workload",
+                       "conf/manifest.yaml is compared as plain entries + set of top-level folders: a nested manifest target "
+                       "(`shared/extra: <source>:link`) is provenance of a sub-folder, is never read back and is dropped when a "
+                       "reload re-stores the manifest (reported as an observation, not judged); top-level folders of generated "
+                       "packages never share a name with a component; symbolic links in package directories are absolute",
                        "every referenced variable has a package default; no variable references in numeric blueprint fields",
                        "explicitly empty options are generated for the list-valued component options only (shutdownOn, "
                        "restartHookOn, executors.pre/post, each over a non-empty FlowIR default / blueprint layer / own base "
@@ -679,6 +765,12 @@ def main():
     c.floor("clause_reload_emptied_options", 200 if tier == "quick" else 5000)
     c.floor("clause_reload_emptied_kind_default", 5 if tier == "quick" else 100)
     c.floor("clause_reload_emptied_kind_blueprint", 10 if tier == "quick" else 200)
+    # top-level folders linked / copied in by the package, direct references into them (round 5)
+    c.floor("packages_with_linked_toplevel_folders", 8 if tier == "quick" else 150)
+    c.floor("packages_with_toplevel_folders_file_form", 5 if tier == "quick" else 100)
+    c.floor("clause_reload_with_direct_refs_into_linked_folders", 12 if tier == "quick" else 250)
+    c.floor("clause_reload_direct_refs_into_linked_folders", 30 if tier == "quick" else 600)
+    c.floor("clause_reload_direct_refs_into_copied_folders", 10 if tier == "quick" else 200)
     sys.exit(c.finish())
 
 
